@@ -104,11 +104,10 @@ def do_encode(cells, f, ref_override=None):
     main = cells[-1]
     roots = [main]
     for _ in range(f['nroots'] - 1):
-        c = rng.choice(cells)
-        # serialized_boc requires roots + absent <= cells, and a strict reader may refuse a root listed twice: the extra roots are
-        # DISTINCT cells (as hashes: equal cells are one cell of the bag)
-        if all(c.hash != r.hash for r in roots):
-            roots.append(c)
+        roots.append(rng.choice(cells))
+    # serialized_boc requires roots + absent <= cells (a root may be listed twice, but never more roots than cells)
+    while len(roots) > 1 and len(roots) > len(set(c.hash for r in roots for c in r.walk())):
+        roots.pop()
     order = refboc.random_topo_order(roots, random.Random(f['order_seed']))
     n = len(order)
     size = min(4, refboc.min_bytes(n) + f['size_extra'])
